@@ -230,7 +230,51 @@ pub fn obs_zob() -> String {
 pub fn obs_legal(b: &ChessBoard) -> String {
     let moves = g(|| sorted_join(b.get_legal_moves().iter().map(|m| format!("{m}")).collect()));
     let castle = g(|| b.castling_is_available_on_board(None).to_index().to_string());
-    format!("moves={moves} castle={castle}")
+    format!("moves={moves} castle={castle} c03={}", near_universe_diff(b))
+}
+
+/// C03 on the implementation itself (the property's own predicate): over the *near universe* of the position — every
+/// own man as (its real type, and one wrong type) x every destination x promotion {none, Q, N, K}, plus both
+/// castlings — `is_legal_move(m)` and `make_move(m).is_ok()` must both equal `m in get_legal_moves()`.
+/// Returns "-" when they agree everywhere (what theorem C03_iff says of the model), else the offending moves.
+pub fn near_universe_diff(b: &ChessBoard) -> String {
+    let legal: Vec<BoardMove> = match catch(|| b.get_legal_moves()) {
+        Some(l) => l,
+        None => return "panic".to_string(),
+    };
+    let stm = b.get_side_to_move();
+    let mut bad: Vec<String> = Vec::new();
+    let mut check = |m: BoardMove, bad: &mut Vec<String>| {
+        let inl = legal.contains(&m);
+        let il = catch(|| b.is_legal_move(&m));
+        let mk = catch(|| b.make_move(&m).is_ok());
+        if il != Some(inl) || mk != Some(inl) {
+            if bad.len() < 8 {
+                bad.push(format!("{}:{}{}{}", move_text(&m), inl as u8,
+                    match il { Some(x) => (x as u8).to_string(), None => "p".into() },
+                    match mk { Some(x) => (x as u8).to_string(), None => "p".into() }));
+            }
+        }
+    };
+    for s in 0..64usize {
+        let on = catch(|| b.get_piece_on(sq(s))).flatten();
+        let (t, c) = match on { Some(Piece(t, c)) => (t, c), None => continue };
+        if c != stm { continue; }
+        let wrong = if t == PieceType::Queen { PieceType::Rook } else { PieceType::Queen };
+        for d in 0..64usize {
+            for pr in [None, Some(PieceType::Queen), Some(PieceType::Knight), Some(PieceType::King)] {
+                if let Ok(pm) = PieceMove::new(t, sq(s), sq(d), pr) {
+                    check(BoardMove::MovePiece(pm), &mut bad);
+                }
+            }
+            if let Ok(pm) = PieceMove::new(wrong, sq(s), sq(d), None) {
+                check(BoardMove::MovePiece(pm), &mut bad);
+            }
+        }
+    }
+    check(BoardMove::CastleKingSide, &mut bad);
+    check(BoardMove::CastleQueenSide, &mut bad);
+    if bad.is_empty() { "-".to_string() } else { bad.join(",") }
 }
 
 pub fn obs_mv(b: &ChessBoard, m: &BoardMove) -> String {
